@@ -33,7 +33,8 @@ CLAIMED = {
                 text='Proof of the building blocks of the adjoint-state gradient: interp_edges_to_vol_averages is the exact transpose of the eta-derivative of the C02 operator (accumulation rule for a symbolic cell; derivative of the spec operator derived mechanically); '
                      'the assembly in Simulation.gradient uses per source-frequency pair its own forward / back-propagated fields and a fresh zero buffer, accumulates every pair exactly once, collects the anisotropy rows according to the model aliasing and '
                      'applies the chain factor of the mapping (C14 obligations re-run) after the sums, for all four anisotropy cases; the forward responses are sampled at Receiver.coordinates_abs(source), the position where the adjoint sources are placed '
-                     '(absolute and source-relative receivers, sources with repeated electrodes).'),
+                     '(absolute and source-relative receivers, sources with repeated electrodes); Simulation._get_responses stores in slot i the response of receiver i itself -- field of its own type (magnetic: get_magnetic_field of the '
+                     'pair\'s model and the electric field), its own coordinates_abs, the simulation\'s interpolation -- for electric and magnetic receivers listed in any order, for a stored or a given electric field.'),
     'C09': dict(ref='5 (C09)', tech=TECH, note=NOTE + ' The linear SciPy interpolator is an assumed contract (bounded concrete check); reciprocity follows as a paper lemma from C02 symmetry and the transposes proved here; magnetic point source (discretize) and cubic interpolation not covered.',
                 text='Proof that point_source locates the unique bracketing cell and stores the product of the 1-D hat weights (all other cells zero) for a symbolic grid and position; that _edge_curl_factor is the '
                      'volume-weighted discrete Faraday law using the C02 curl stencil; that get_receiver combines the per-component interpolants with the same rotation() factors and masks exactly the outermost cells; '
